@@ -91,7 +91,7 @@ type Case struct {
 	Ops   []Op     `json:"ops"`
 }
 
-var opKinds = []string{"put", "putstream1", "putstream3", "f:putstream2", "f:putvec", "get", "f:get", "getstream", "f:getstream", "getstream-abandon", "f:peek", "has"}
+var opKinds = []string{"put", "putstream1", "putstream3", "f:putstream2", "f:putvec", "f:putvec1", "f:putvec3", "get", "f:get", "getstream", "f:getstream", "getstream-abandon", "f:peek", "has"}
 
 type anyStore interface {
 	storage.ReadableStorage
@@ -266,10 +266,17 @@ func RunCase(c Case, allKeys []string) (fs []core.Finding, steps int) {
 				for j := range buf {
 					buf[j] ^= 0xff
 				}
-			case "f:putvec":
+			case "f:putvec", "f:putvec1", "f:putvec3":
 				isPut = true
 				buf := append([]byte(nil), content...)
-				perr = storage.PutVec(ctx, e.st, k, [][]byte{buf[:len(buf)/2], buf[len(buf)/2:]})
+				vec := [][]byte{buf[:len(buf)/2], buf[len(buf)/2:]}
+				switch op.Kind {
+				case "f:putvec1":
+					vec = [][]byte{buf} // one segment: nothing to join
+				case "f:putvec3":
+					vec = [][]byte{buf[:len(buf)/3], buf[len(buf)/3 : len(buf)/3], buf[len(buf)/3:]} // an empty segment in the middle
+				}
+				perr = storage.PutVec(ctx, e.st, k, vec)
 				for j := range buf {
 					buf[j] ^= 0xff
 				}
